@@ -1007,6 +1007,27 @@ fn source_clauses(
                         vec![format!("error-depth:{}", wp)],
                     );
                 }
+                // a glob walk starts at the directory its invariant prefix names: "the depth at which
+                // the error occurred from the root directory of the traversal" (which is why it may
+                // differ from `Entry::depth`). That directory is observed, not computed: it is the
+                // first item the closure-free feed shows (runs with taps and without a minimum depth).
+                if is_glob && min == 0 {
+                    if let Some(root) = uv.taps.iter().find(|t| t.pos == 0).and_then(|t| t.wp.clone()) {
+                        if is_under(&wp, &root) && e.depth != depth_of(rel_to(&wp, &root)) {
+                            out.violate(
+                                "C20",
+                                "err-sound",
+                                wi,
+                                format!(
+                                    "error for {:?} reports depth {} but the path lies {} levels below the directory the traversal started in ({:?})",
+                                    wp, e.depth, depth_of(rel_to(&wp, &root)), root
+                                ),
+                                vec![format!("error-depth:{}", wp)],
+                            );
+                        }
+                        out.probe("error-depth:judged-against-the-observed-traversal-root");
+                    }
+                }
                 out.fire(fault_name(f));
             },
             None => {
